@@ -8,34 +8,35 @@ including malformed orders; any devices `w`, any configuration).  All theorems q
 history (`pre`), i.e. over every reachable bundler state, or over every state outright.
 -/
 import BlueskyVerif.Lemmas.C15Collide
+import BlueskyVerif.Lemmas.BundlerKeepsOut
 import BlueskyVerif.Bundler.Guards
 
 namespace BlueskyVerif.C15
 open BlueskyVerif.Bundler BlueskyVerif.Bundler.Generated
 
 /-- state reached by the history `ops` after `open_run`, with the ghost list of the readings accepted
-    into the currently open bundle (a function of the history only, see `acceptedStep`) -/
+    into the currently open bundle (a function of the history only, see `acceptedStep`).  The state's
+    `out` field holds every document emitted so far, in order. -/
 def after (w : World) (cfg : BCfg) (env : List (Obj × Config)) (ops : List Op) : BState × List (Obj × Reading) :=
-  runAcc w (openRun cfg 0 env).st [] ops
+  runAcc w (openRun cfg 0 env) [] ops
 
-/-- all documents emitted by `open_run` and the history `ops` -/
-def docsOf (w : World) (cfg : BCfg) (env : List (Obj × Config)) (ops : List Op) : List Doc :=
-  (openRun cfg 0 env).docs ++ traceDocs (runFrom w (openRun cfg 0 env).st ops).2
+theorem runAcc_state (w : World) (s : BState) (acc : List (Obj × Reading)) (ops : List Op) :
+    (runAcc w s acc ops).1 = runState w s ops := by
+  induction ops generalizing s acc with
+  | nil => rfl
+  | cons op ops ih => simp only [runAcc, runState]; exact ih _ _
 
 theorem after_bundleInv (w : World) (cfg : BCfg) (env : List (Obj × Config)) (ops : List Op) :
     BundleInv (after w cfg env ops).1 (after w cfg env ops).2 := by
   apply bundleInv_run
   intro hb
-  have : (openRun cfg 0 env).st.bundling = false := by
-    cases h2 : cfg.recordInterruptions <;>
-      simp [openRun, Res.andThen, resetR, Res.pure, resetCp, Res.ok, openRunResets, h2]
-  rw [this] at hb; cases hb
+  rw [(openRun_bundling cfg 0 env).1] at hb; cases hb
 
 /-- **Event = exactly the bundled readings.**  After ANY history, if `save` emits an event then that
     event is a bundle event whose data is the dict-merge of exactly the readings accepted since the
     `create` that opened the bundle (and there was at least one). -/
 theorem C15_event_keys (w : World) (cfg : BCfg) (env : List (Obj × Config)) (pre : List Op) :
-    ∀ e ∈ (step w (after w cfg env pre).1 .save).docs, e.kind = .event →
+    ∀ e ∈ docsSince (after w cfg env pre).1 (step w (after w cfg env pre).1 .save).st, e.kind = .event →
       e.src = .bundle ∧
       e.data = mergeReadings ((after w cfg env pre).2.map Prod.snd) ∧
       e.keys = (mergeReadings ((after w cfg env pre).2.map Prod.snd)).map Prod.fst ∧
@@ -43,7 +44,7 @@ theorem C15_event_keys (w : World) (cfg : BCfg) (env : List (Obj × Config)) (pr
   intro e he hk
   obtain ⟨descs, ev, hdocs, hkind, hev⟩ := save_spec w (after w cfg env pre).1
   simp only [step] at he
-  rw [hdocs] at he
+  rw [docsSince_of_append _ _ _ hdocs] at he
   rcases List.mem_append.1 he with h | h
   · have := hkind e h; rw [hk] at this; cases this
   · rcases hev with h0 | ⟨e', n, d, hev', hb, hne, _, _, hsrc, _, _, hdata, hkeys, _, _, _⟩
@@ -55,31 +56,32 @@ theorem C15_event_keys (w : World) (cfg : BCfg) (env : List (Obj × Config)) (pr
 
 /-- **The descriptor comes first and its data keys match.**  After ANY history, what `save` emits
     is: zero or more descriptors, then at most one event; the event's `descriptor` is the uid of a
-    descriptor document of the same stream emitted earlier (by an earlier operation or just before
-    it in this `save`), and the event's keys equal that descriptor's (non-external) data keys. -/
+    descriptor document of the same stream emitted earlier (by an earlier operation -- it is in the
+    output `out` before the `save` -- or just before it in this `save`), and the event's keys equal
+    that descriptor's (non-external) data keys. -/
 theorem C15_descriptor_first (w : World) (cfg : BCfg) (env : List (Obj × Config)) (pre : List Op) :
-    ∃ descs ev, (step w (after w cfg env pre).1 .save).docs = descs ++ ev ∧
+    ∃ descs ev, docsSince (after w cfg env pre).1 (step w (after w cfg env pre).1 .save).st = descs ++ ev ∧
       (∀ d ∈ descs, d.kind = .descriptor) ∧
       (ev = [] ∨ ∃ e, ev = [e] ∧ e.kind = .event ∧
-        ∃ d ∈ docsOf w cfg env pre ++ descs, d.kind = .descriptor ∧ e.descriptor = some d.uid ∧
+        ∃ d ∈ (after w cfg env pre).1.out ++ descs, d.kind = .descriptor ∧ e.descriptor = some d.uid ∧
           d.stream = e.stream ∧
           sameSet (nonStream d.extKeys d.keys) (nonStream d.extKeys e.keys) = true) := by
   obtain ⟨descs, ev, hdocs, hkind, hev⟩ := save_spec w (after w cfg env pre).1
-  refine ⟨descs, ev, hdocs, hkind, ?_⟩
+  refine ⟨descs, ev, docsSince_of_append _ _ _ hdocs, hkind, ?_⟩
   rcases hev with h0 | ⟨e, n, d, hev', _, _, _, hk, _, hstream, hdesc, _, _, hsame, hdoc, _⟩
   · exact Or.inl h0
   · refine Or.inr ⟨e, hev', hk, ?_⟩
-    have hdocd : Documented (docsOf w cfg env pre ++ descs) n d := by
+    have hdocd : KeepsDocs.Documented ((after w cfg env pre).1.out ++ descs) n d := by
       rcases hdoc with h | h
-      · have hinv : DInv (after w cfg env pre).1 (docsOf w cfg env pre) := by
-          unfold after docsOf
-          rw [runAcc_fst]
+      · have hinv : DInv (after w cfg env pre).1 := by
+          unfold after
+          rw [runAcc_state]
           apply DInv_run
           intro nd hm
           rw [openRun_descriptors] at hm; cases hm
         exact (hinv (n, d) h).mono (by intro x hx; simp; exact Or.inl hx)
       · exact h.mono (by intro x hx; simp; exact Or.inr hx)
-    obtain ⟨doc, hm, h1, h2, h3, h4, h5⟩ := hdocd
+    obtain ⟨doc, hm, h1, h2, h3, h4, h5, _, _, _⟩ := hdocd
     refine ⟨doc, hm, h1, by rw [hdesc, h2], by rw [h3, hstream], ?_⟩
     rw [h4, h5]; exact hsame
 
@@ -91,7 +93,7 @@ theorem C15_collision_rejected (w : World) (cfg : BCfg) (env : List (Obj × Conf
     (hdev : (w.spec o).isDet = false)
     (hcol : ∃ ro ∈ (after w cfg env pre).1.objsRead, overlaps (w.spec ro).keys (w.spec o).keys = true) :
     (step w (after w cfg env pre).1 (.read o rd)).err = some .valueError ∧
-    (step w (after w cfg env pre).1 (.read o rd)).docs = [] ∧
+    (step w (after w cfg env pre).1 (.read o rd)).st.out = (after w cfg env pre).1.out ∧
     (step w (after w cfg env pre).1 (.read o rd)).st.readCache = (after w cfg env pre).1.readCache ∧
     (step w (after w cfg env pre).1 (.read o rd)).st.objsRead = (after w cfg env pre).1.objsRead ∧
     (step w (after w cfg env pre).1 (.read o rd)).st.bundling = true := by
@@ -105,16 +107,16 @@ theorem C15_collision_rejected (w : World) (cfg : BCfg) (env : List (Obj × Conf
       | nil => intro s0 acc h; exact h
       | cons op ops ih => intro s0 acc h; exact ih _ _ (describeInv_step w s0 op h)
     apply this
-    have h0 : (openRun cfg 0 env).st.describeCache = [] ∧ (openRun cfg 0 env).st.bundling = false := by
-      cases h2 : cfg.recordInterruptions <;>
-        simp [openRun, Res.andThen, resetR, Res.pure, resetCp, Res.ok, openRunResets, h2]
+    have h0 := openRun_bundling cfg 0 env
     refine ⟨fun o ks h => ?_, fun h => ?_⟩
-    · rw [h0.1] at h; cases h
     · rw [h0.2] at h; cases h
+    · rw [h0.1] at h; cases h
   obtain ⟨ro, hro, hov⟩ := hcol
   obtain ⟨hok, hcached⟩ := ensureCached_cached w s o hdev
   have hk := keeps_ensureCached w s o false
   have hkd := KeepsDescribeCache.keeps_ensureCached w s o false
+  -- ensureCached emits nothing: it keeps the whole output (frame for `out`)
+  have hout : (ensureCached w s o false).st.out = s.out := KeepsOut.keeps_ensureCached w s o false
   -- the caches after ensureCached hold the devices' keys for both objects
   obtain ⟨kso, hkso⟩ := (ahas_iff _ _).1 hcached
   have hkso' : kso = (w.spec o).keys := by
@@ -132,8 +134,8 @@ theorem C15_collision_rejected (w : World) (cfg : BCfg) (env : List (Obj × Conf
   unfold Bundler.read
   simp only [hb, Bool.not_true, Bool.false_eq_true, if_false]
   rw [Res.andThen_of_ok _ _ hok]
-  simp only [hcoll, if_true, Res.fail_err, Res.fail_docs, Res.fail_st, List.append_nil]
-  exact ⟨trivial, ensureCached_docs w s o false, hk.1, hk.2.1, by rw [hk.2.2.2]; exact hb⟩
+  simp only [hcoll, if_true, Res.fail_err, Res.fail_st]
+  exact ⟨trivial, hout, hk.1, hk.2.1, by rw [hk.2.2.2]; exact hb⟩
 
 /-- **checkpoint / configure inside a bundle are rejected** (engine guards `_checkpoint`,
     `_configure`): for EVERY engine state with an open bundle the message raises
@@ -163,8 +165,8 @@ theorem C15_no_run_rejected (w : World) (g : GState) (n : Option Name) (hr : g.r
     after ANY history in which no reading was accepted since the `create`, `save` emits nothing,
     raises nothing and consumes no seq_num. -/
 theorem C15_drop_or_empty_save_silent (w : World) (s : BState) :
-    ((step w s .drop).docs = [] ∧ (step w s .drop).st.seq = s.seq ∧ (step w s .drop).st.seqCopy = s.seqCopy) ∧
-    (s.objsRead = [] → (step w s .save).docs = [] ∧ (step w s .save).st.seq = s.seq ∧
+    ((step w s .drop).st.out = s.out ∧ (step w s .drop).st.seq = s.seq ∧ (step w s .drop).st.seqCopy = s.seqCopy) ∧
+    (s.objsRead = [] → (step w s .save).st.out = s.out ∧ (step w s .save).st.seq = s.seq ∧
       (step w s .save).st.seqCopy = s.seqCopy ∧ (s.bundling = true → (step w s .save).err = none)) := by
   constructor
   · simp only [step, drop]; split <;> simp
@@ -174,7 +176,8 @@ theorem C15_drop_or_empty_save_silent (w : World) (s : BState) :
 
 theorem C15_empty_save_silent_history (w : World) (cfg : BCfg) (env : List (Obj × Config)) (pre : List Op)
     (hb : (after w cfg env pre).1.bundling = true) (hacc : (after w cfg env pre).2 = []) :
-    (step w (after w cfg env pre).1 .save).docs = [] ∧ (step w (after w cfg env pre).1 .save).err = none ∧
+    (step w (after w cfg env pre).1 .save).st.out = (after w cfg env pre).1.out ∧
+    (step w (after w cfg env pre).1 .save).err = none ∧
     (step w (after w cfg env pre).1 .save).st.seq = (after w cfg env pre).1.seq := by
   have ho : (after w cfg env pre).1.objsRead = [] := by
     rw [(after_bundleInv w cfg env pre hb).2, hacc]; rfl
@@ -187,7 +190,7 @@ def wEx : World := [{ name := "a", keys := ["a1", "a2"] }, { name := "b", keys :
 def hEx : List Op := [.create (some "primary"), .read "a" [("a1", 1), ("a2", 2)], .read "b" [("b1", 3)]]
 
 /-- a bundle over two devices is accepted and `save` emits descriptor + event with the four readings -/
-example : ((step wEx (after wEx {} [] hEx).1 .save).docs.map (·.kind)) = [.descriptor, .event] := by decide
+example : ((docsSince (after wEx {} [] hEx).1 (step wEx (after wEx {} [] hEx).1 .save).st).map (·.kind)) = [.descriptor, .event] := by decide
 example : (after wEx {} [] hEx).2.length = 2 := by decide
 /-- the collision hypothesis is satisfiable: `c` overlaps `a` -/
 example : (after wEx {} [] hEx).1.bundling = true ∧
